@@ -304,12 +304,15 @@ func evaluateNoUnionInstanceMethod(
 	}
 
 	if methodT.IsDestructive {
+		// the receiver variable gets a copy: the result of a configured method outside
+		// the "Builtin" frame is its table entry, and a later assignment to the
+		// variable overwrites what the variable is bound to
 		base.SetValueT(
 			m.ctx.GetFrame(),
 			m.ctx.GetClass(),
 			m.ctx.GetMethod(),
 			m.objectT.ToString(),
-			returnT,
+			returnT.DeepCopy(),
 			m.ctx.IsDefineStatic,
 		)
 	}
